@@ -239,7 +239,7 @@ func c18() {
 		res, err := th.Run(vlib.ToolRun{Argv: argv, FakeMode: "emit", Listing: listing})
 		desc := fmt.Sprintf("case %d: %s, discovered=%s (%d sites), -b %v, -allow %v, format=%s debug=%v out=%v", i, cx.name, shape, len(found), bl, al, format, debug, outFile != "")
 		if err != nil || res.TimedOut {
-			run.Inconclusive("profiler run failed: " + desc)
+			run.SoftInconclusive("profiler run failed: " + desc)
 			return
 		}
 		replay := map[string]any{"check": "C18", "desc": desc, "argv": argv[1:], "discovered_numbers": found, "expected_names": wantList, "stderr_tail": tail(res.Stderr, 500)}
